@@ -4,12 +4,12 @@ import json, os
 HERE = os.path.dirname(os.path.dirname(os.path.abspath(__file__)))
 ALL = [f"C{i:02d}" for i in range(1, 21)]
 
-# property -> (level text, level note, technique, design section)
-CLAIMED = {
- "C01": ("Lean 4 theorems over the header model: pack = CCSDS 133.0-B-2 layout for all 2^48 in-range headers, decode∘encode = id with any suffix, encode∘decode = b[:6] for every octet string ≥ 6, packet-id / sequence-control word round trips, refusal of every out-of-range APID/count/length, reported length = data length + 7. The model is tied to /repo on every run by the correspondence check (exhaustive 65 536-value sweeps of each header word, all 8 192 packet-id and 65 536 sequence-control words, boundary pools, out-of-range pools, random tuples with suffixes).",
-         "Trusted: Lean kernel; axioms propext, Classical.choice, Quot.sound only (audited each run); the hand-written model's faithfulness is checked differentially, not proved; CPython int/struct/enum semantics are modelled.",
-         "Lean 4 proof (kernel-checked theorems over an executable model) + differential correspondence check model vs implementation", "6 C01"),
-}
+# one file per claimed property: manifest/Cxx.json = {"text":…, "note":…, "technique":…, "design_ref":…}
+CLAIMED = {}
+for fn in sorted(os.listdir(os.path.join(HERE, "manifest"))):
+    if fn.endswith(".json"):
+        d = json.load(open(os.path.join(HERE, "manifest", fn)))
+        CLAIMED[fn[:-5]] = (d["text"], d["note"], d["technique"], d["design_ref"])
 PENDING_REASON = "check not built yet in this revision (work in progress; Lean proof + correspondence is applicable and planned, see DESIGN.md section 6)"
 
 def main():
